@@ -173,6 +173,20 @@ def build(job):
                     t.ev(op="refuse", m=nm, res=0)
                 except Exception:  # noqa: BLE001 -- any error is a refusal
                     t.ev(op="refuse", m=nm, res=1)
+            # valid call, refused call with the next call's Q (resp. P), valid call: a refusal must leave nothing behind
+            g1_ = t.prod("g1", nm, lambda: m.G1, n=1)
+            g2_ = t.prod("g2", nm, lambda: m.G2, n=1)
+            t.prod("pair", nm, lambda: m.pairing(t.R(g2_), t.R(g1_)), a=g2_, b=g1_, gt=True)
+            q2_ = t.prod("g2", nm, lambda: m.multiply(m.G2, 2), n=2)
+            p3_ = t.prod("g1", nm, lambda: m.multiply(m.G1, 3), n=3)
+            for (Q, Pp) in ((t.R(q2_), G1b), (G2b, t.R(p3_))):
+                try:
+                    m.pairing(Q, Pp)
+                    t.ev(op="refuse", m=nm, res=0)
+                except Exception:  # noqa: BLE001
+                    t.ev(op="refuse", m=nm, res=1)
+            t.prod("pair", nm, lambda: m.pairing(t.R(q2_), t.R(g1_)), a=q2_, b=g1_, gt=True)
+            t.prod("pair", nm, lambda: m.pairing(t.R(g2_), t.R(p3_)), a=g2_, b=p3_, gt=True)
     # exponentiation identities on arbitrary FQ12 elements
     if not t.dead:
         E = (p ** 12 - 1) // r
